@@ -253,6 +253,75 @@ theorem pyFloat_spec (s : Str) (v : Dec) (h : pyFloat s = some v) : specNumber s
         · have h1 : (decide (c = 'e') || decide (c = 'E')) = false := by simpa using hc
           simp [h1]
 
+/-- **short form.** For every digit string `m` (mantissa) and `e` (exponent), both
+    non-empty: `m-e` / `m+e` is read as `m·10^(∓e)` — "2-1 means 2e-1". -/
+theorem short_form_value (m e : Str) (sg : Char) (hm : ∀ c ∈ m, isDig c = true) (he : ∀ c ∈ e, isDig c = true)
+    (hmne : m ≠ []) (hene : e ≠ []) (hsg : sg = '+' ∨ sg = '-') :
+    convertFortran (m ++ sg :: e) =
+      .ok ⟨false, digitsVal m, if sg = '-' then - (digitsVal e : Int) else (digitsVal e : Int)⟩ ∧
+    specNumber (m ++ sg :: e) =
+      some ⟨false, digitsVal m, if sg = '-' then - (digitsVal e : Int) else (digitsVal e : Int)⟩ := by
+  obtain ⟨c0, m', rfl⟩ := List.exists_cons_of_ne_nil hmne
+  have hc0 := isDig_props c0 (hm c0 (by simp))
+  have hsgD : isDig sg = false := by rcases hsg with rfl | rfl <;> decide
+  have hsgS : isSign sg = true := by rcases hsg with rfl | rfl <;> decide
+  have hsgN : notSD sg = false := by rcases hsg with rfl | rfl <;> decide
+  have hsg_e : sg ≠ 'e' ∧ sg ≠ 'E' ∧ sg ≠ 'd' ∧ sg ≠ 'D' ∧ sg ≠ '.' := by rcases hsg with rfl | rfl <;> decide
+  have hc0m : c0 ≠ '-' ∧ c0 ≠ '+' := by
+    have := hc0.2.1; simp [isSign] at this; exact ⟨this.2, this.1⟩
+  have tw := takeWhile_all (p := isDig) (c0 :: m') sg e hm hsgD
+  have twN := takeWhile_all (p := notSD) (c0 :: m') sg e (fun c hc => (isDig_props c (hm c hc)).1) hsgN
+  have twE := takeWhile_all_end (p := notSD) e (fun c hc => (isDig_props c (he c hc)).1)
+  have hall : e.all isDig = true := by simpa using he
+  have heE : e.isEmpty = false := by cases e <;> simp_all
+  have hts : takeSign ((c0 :: m') ++ sg :: e) = (false, (c0 :: m') ++ sg :: e) := by
+    simp [takeSign, hc0m.1, hc0m.2]
+  have hscan : scanMant ((c0 :: m') ++ sg :: e) = some (c0 :: m', [], sg :: e) := by
+    simp only [scanMant, tw.1, tw.2]
+    simp [hsg_e.2.2.2.2]
+  have hexp : scanExp (sg :: e) = some (if sg = '-' then - (digitsVal e : Int) else (digitsVal e : Int)) := by
+    rcases hsg with rfl | rfl <;> simp [scanExp, takeSign, heE, hall]
+  have hpf : pyFloat ((c0 :: m') ++ sg :: e) = none := by
+    simp only [pyFloat, hts, hscan]
+    simp [hsg_e.1, hsg_e.2.1]
+  have hmk : mkDec false (c0 :: m') [] (if sg = '-' then - (digitsVal e : Int) else (digitsVal e : Int)) =
+      ⟨false, digitsVal (c0 :: m'), if sg = '-' then - (digitsVal e : Int) else (digitsVal e : Int)⟩ := by
+    simp [mkDec]
+  constructor
+  · -- the code: float() fails, not a lone sign, the short-form regexp matches, float(m + 'E' + sign + e)
+    have hlone : ¬ ((c0 :: m') ++ sg :: e = ['+'] ∨ (c0 :: m') ++ sg :: e = ['-']) := by
+      intro h; rcases h with h | h <;> simp at h
+    have hshort : shortForm ((c0 :: m') ++ sg :: e) = some ((c0 :: m') ++ 'E' :: sg :: e) := by
+      have : shortTry none ((c0 :: m') ++ sg :: e) = some ((c0 :: m') ++ 'E' :: sg :: e) := by
+        simp only [shortTry, twN.1, twN.2, hsgS, twE.1]
+        simp
+      simp only [List.cons_append, shortForm, hc0.2.1]
+      simpa using this
+    have twE2 := takeWhile_all (p := isDig) (c0 :: m') 'E' (sg :: e) hm (by decide)
+    have hpf2 : pyFloat ((c0 :: m') ++ 'E' :: sg :: e) =
+        some (mkDec false (c0 :: m') [] (if sg = '-' then - (digitsVal e : Int) else (digitsVal e : Int))) := by
+      have hts2 : takeSign ((c0 :: m') ++ 'E' :: sg :: e) = (false, (c0 :: m') ++ 'E' :: sg :: e) := by
+        simp [takeSign, hc0m.1, hc0m.2]
+      have hscan2 : scanMant ((c0 :: m') ++ 'E' :: sg :: e) = some (c0 :: m', [], 'E' :: sg :: e) := by
+        simp only [scanMant, twE2.1, twE2.2]
+        simp
+      simp only [pyFloat, hts2, hscan2, hexp]
+      simp
+    unfold convertFortran
+    rw [hpf]
+    simp only [hshort, hpf2, hmk]
+    simp [hlone]
+  · have hlone : ¬ ((c0 :: m') ++ sg :: e = ['+'] ∨ (c0 :: m') ++ sg :: e = ['-']) := by
+      intro h; rcases h with h | h <;> simp at h
+    unfold specNumber
+    rw [if_neg (by simpa using hlone)]
+    simp only [hts, hscan]
+    have h4 : (decide (sg = 'e') || decide (sg = 'E') || decide (sg = 'd') || decide (sg = 'D')) = false := by
+      simp [hsg_e.1, hsg_e.2.1, hsg_e.2.2.1, hsg_e.2.2.2.1]
+    simp only [h4, hsgS, heE, hall]
+    simp [hmk]
+
+
 /-- a lone sign is 0 -/
 theorem lone_sign_zero :
     convertFortran ['+'] = .ok ⟨false, 0, 0⟩ ∧ convertFortran ['-'] = .ok ⟨false, 0, 0⟩ := by decide
@@ -266,6 +335,10 @@ theorem signed_d_rejected_witness :
 theorem malformed_accepted_witness :
     convertFortran "2-1-3".toList = .ok ⟨false, 2, -1⟩ ∧ specNumber "2-1-3".toList = none := by
   decide
+
+/-- non-vacuity of `short_form_value`: its hypotheses hold for `25-13` -/
+example : (∀ c ∈ "25".toList, isDig c = true) ∧ (∀ c ∈ "13".toList, isDig c = true) ∧
+    convertFortran "25-13".toList = .ok ⟨false, 25, -13⟩ := by decide
 
 example : convertFortran "2-1".toList = .ok ⟨false, 2, -1⟩ ∧ convertFortran "1.5D+2".toList = .ok ⟨false, 15, 1⟩ ∧
     specNumber "1.5D+2".toList = some ⟨false, 15, 1⟩ ∧ specNumber "-2+1".toList = some ⟨true, 2, 1⟩ := by decide
